@@ -398,6 +398,48 @@ def o_c06(meta, ans, ctx):
     return None
 
 
+def o_c09(meta, ans, ctx):
+    if meta.get('kind') != 'leak':
+        return None
+    kv = dict(t.split('=', 1) for t in ans.split(' ')[1:] if '=' in t)
+    if 'heap' not in kv: return 'shape: ' + ans[:60]
+    heap, maps = int(kv['heap']), int(kv['maps'])
+    what = 'succeeding' if kv.get('first') == 'ok' else ('panicking' if kv.get('first') == 'panic' else 'failing')
+    # allocator caches can retain a bounded amount; a leak grows with the repetitions
+    if heap >= meta['reps'] * 16: return 'heap-leak: %d live bytes more after %d %s loads (%s, %s)' % (heap, meta['reps'], what, meta['loader'], meta['variant'])
+    if maps >= max(2, meta['reps'] // 4): return 'map-leak: %d mappings more after %d %s loads (%s, %s)' % (maps, meta['reps'], what, meta['loader'], meta['variant'])
+    return None
+
+
+class C09Spec(CaseSpec):
+    """the leak measurements through the line protocol, plus the probe programs (compile outcomes)"""
+    def run(self, prop, tier, seed, replay=None):
+        res = CaseSpec.run(self, prop, tier, seed, replay)
+        import probes
+        expect, got = probes.run_probes('c09_')
+        samples = []
+        for name in sorted(got):
+            e, g = expect[name], got[name]
+            outcome = 'compiles' if g['compiled'] else 'rejected'
+            samples.append({'probe': name, 'path': e['path'], 'expected': e['expect'], 'outcome': outcome, 'codes': g['codes']})
+            sig = {'op': 'probe', 'probe': name, 'outcome': outcome, 'type_shape': '', 'rust_type': ''}
+            detail = {'probe': name, 'source': 'probes/src/bin/%s.rs' % name, 'path': e['path'], 'expected': e['expect'],
+                      'outcome': outcome, 'codes': g['codes'], 'messages': g['messages'][:3]}
+            if g.get('dep_failed'):
+                res['disagreements'].append((dict(sig, kind='probe-build'), detail))
+            elif e['expect'] == 'rejected' and g['compiled']:
+                detail['why'] = 'escape: a safe program that keeps borrowed data past its owner compiles'
+                res['failures'].append((dict(sig, clause='escape'), detail))
+            elif e['expect'] == 'rejected' and not any(c in ('E0597', 'E0505', 'E0515', 'E0716', 'E0521', 'E0506', 'E0502', 'E0499', 'E0373', 'E0310') for c in g['codes']):
+                res['disagreements'].append((dict(sig, kind='probe-rejected-for-another-reason'), detail))
+            elif e['expect'] == 'compiles' and not g['compiled']:
+                detail['why'] = 'usable: an ordinary client program no longer compiles'
+                res['disagreements'].append((dict(sig, kind='probe-ordinary-use-rejected'), detail))
+        res['coverage']['programs'] = len(got)
+        res['coverage']['probe_results'] = samples
+        return res
+
+
 def o_c08(meta, ans, ctx):
     if meta.get('kind') != 'load':
         return None
@@ -597,6 +639,7 @@ SPECS = {
     'C12': CaseSpec(o_c12, 'every base residue 0..127 (all for half of the types with aligned blocks in the quick tier, 16 residues for the rest) x generated values; block list taken from the real schema.'),
     'C03': CaseSpec(o_c03, 'offsets of every borrowed part of real ε-copy results (pointer minus buffer start, printed by Show on the ε types) against the offsets of the writer blocks in the model; allocator calls and bytes during deserialize_eps for each value and for the same value with every borrowed payload repeated x4 and x16 (x2, x8, x64 thorough).'),
     'C06': CaseSpec(o_c06, 'golden corpus (147 files written by the build at claim time for the fixed corpus universe): re-serialization must reproduce the stored bytes, both deserializers must return the stored value, hash words must be the stored ones; plus bytes / hash feeds / digests of every generated type and value against the independent Lean encoder and XXH3 port.'),
+    'C09': C09Spec(o_c09, 'failing loads (8 truncation points, corrupted magic / type hash, a foreign type, garbage) and succeeding loads, repeated 12 (40) times per loader under a counting global allocator and a /proc/self/maps count; 9 probe programs (one per access path) compiled against the working tree.'),
     'C08': CaseSpec(o_c08, 'store + load_full / load_mem / load_mmap / mmap of generated values (all 8 flag sets for a quarter of the cases in the quick tier), file lengths of every residue modulo 64 (32 in the quick tier), region range through the hook, tail bytes read back, the case moved, boxed, read from 4 threads and sent to another thread.'),
     'C18': CaseSpec(o_c18, 'serialize_with_schema of every generated value: bytes versus the plain writer, rows versus the model forest, pre-order / tiling / in-stream / zero padding / alignment invariants on the real rows, to_csv and debug under catch_unwind.'),
     'C13': CaseSpec(o_c13, 'failure at every position k in [0,len] (all k for a fifth of the types in the quick tier, boundary and sampled k for the rest) with random per-call caps and Interrupted patterns, splitting/retrying writers, flush failure, BufWriter over /dev/full; slice references and structures holding them with the allocator protecting the borrowed buffer.'),
